@@ -408,7 +408,7 @@ let c03_clause_name = function
 let starts_with p s = String.length s >= String.length p && String.sub s 0 (String.length p) = p
 
 let run_c03 ic =
-  let n = ref 0 and n_dis = ref 0 and n_fail = ref 0 and n_err = ref 0 and n_dig = ref 0 in
+  let n = ref 0 and n_dis = ref 0 and n_fail = ref 0 and n_err = ref 0 and n_dig = ref 0 and n_mtree = ref 0 in
   iter_cases ic (fun _ -> ()) (fun c ->
       incr n;
       let f = fmt_of_string c.format in
@@ -425,7 +425,30 @@ let run_c03 ic =
         let digests = List.map (fun (_, s, r) -> (explode s, explode r)) c.digests in
         let sizes = List.map (fun (_, s, r) -> (z_of_int s, z_of_int r)) c.sizes in
         n_dig := !n_dig + List.length digests + List.length sizes;
-        let mtree_ok = List.for_all (fun (k, v) -> (not (starts_with "mtree_" k)) || v) c.structs in
+        (* archlinux: the .MTREE as stored against the mtree model - its reader accepts the bytes, its writer gives them
+           back, and the text the model writes for the members the archive ships (.PKGINFO first) is that very text *)
+        let mtree_notes = (match f, List.assoc_opt "mtreeraw" c.extra with
+            | FArch, Some t ->
+              let raw = unhex t.(1) in
+              let sh (o : oent) = { sh_path = explode o.o_path; sh_kind = (match o.o_kind with "dir" -> SDir | "symlink" -> SLink | _ -> SFile);
+                                    sh_mode = n_of_int o.o_mode; sh_time = n_of_int o.o_mtime; sh_size = n_of_int o.o_size;
+                                    sh_md5 = explode o.o_md5; sh_sha256 = explode o.o_sha256; sh_link = explode o.o_link } in
+              (match List.filter (fun (o : oent) -> o.o_path = ".PKGINFO") c.cents with
+               | [pi] ->
+                 incr n_mtree;
+                 let model = arch_mtree (sh pi) (List.map sh c.pents) in
+                 (if mtree_reencodes raw then [] else ["the .MTREE member is not a text the mtree model's reader and writer agree on"])
+                 @ (if model = raw then [] else begin
+                     let ml = String.split_on_char '\n' (implode model) and rl = String.split_on_char '\n' (implode raw) in
+                     let rec first i a b = match a, b with
+                       | x :: a', y :: b' -> if x = y then first (i + 1) a' b' else Printf.sprintf "line %d: the members shipped dictate %S, .MTREE says %S" i x y
+                       | x :: _, [] -> Printf.sprintf "line %d: the members shipped dictate %S, .MTREE ends" i x
+                       | [], y :: _ -> Printf.sprintf "line %d: .MTREE has a further line %S" i y
+                       | [], [] -> "texts differ" in
+                     [first 1 ml rl] end)
+               | _ -> ["no single .PKGINFO member beside the .MTREE"])
+            | _ -> []) in
+        let mtree_ok = List.for_all (fun (k, v) -> (not (starts_with "mtree_" k)) || v) c.structs && mtree_notes = [] in
         let clauses = check_C03 f payload md5 has_md5 installed digests sizes mtree_ok in
         (* the model's prediction of the size estimate from the plan: sum of planned sizes *)
         let agree = (match model_prepared c, f with
@@ -445,9 +468,9 @@ let run_c03 ic =
         if clauses <> [] then incr n_fail;
         if clauses <> [] || not agree then
           report c.id agree (List.sort_uniq compare (List.map c03_clause_name clauses)) []
-            (List.filter_map (fun (nm, s, r) -> if s <> r || s = "" then Some (Printf.sprintf "digest %s stored=%s recomputed=%s" nm s r) else None) c.digests
+            (mtree_notes @ List.filter_map (fun (nm, s, r) -> if s <> r || s = "" then Some (Printf.sprintf "digest %s stored=%s recomputed=%s" nm s r) else None) c.digests
              @ List.filter_map (fun (nm, s, r) -> if s <> r then Some (Printf.sprintf "size %s stored=%d recomputed=%d" nm s r) else None) c.sizes));
-  Printf.printf "SUMMARY cases=%d disagreements=%d impl_failures=%d impl_errors=%d digests_and_sizes_recomputed=%d\n" !n !n_dis !n_fail !n_err !n_dig
+  Printf.printf "SUMMARY cases=%d disagreements=%d impl_failures=%d impl_errors=%d digests_and_sizes_recomputed=%d mtree_texts_rewritten_by_the_model=%d\n" !n !n_dis !n_fail !n_err !n_dig !n_mtree
 
 (* ---------- C04 ---------- *)
 let c04_clause_name = function
